@@ -66,10 +66,29 @@ def lake_build(targets, timeout=1500):
     return p.returncode == 0, log
 
 
-def forbidden_scan():
-    """grep the Lean sources for tokens that would weaken the trusted base; comment hits discarded."""
+def import_closure(module):
+    """files of this project reachable from a module through `import HedVerif.…` lines"""
+    seen, todo = set(), [module]
+    while todo:
+        m = todo.pop()
+        f = LEAN / (m.replace(".", "/") + ".lean")
+        if m in seen or not f.exists():
+            continue
+        seen.add(m)
+        todo += re.findall(r"^import (HedVerif\.\S+)", f.read_text(), flags=re.M)
+    return {LEAN / (m.replace(".", "/") + ".lean") for m in seen}
+
+
+def forbidden_scan(module=None):
+    """grep the Lean sources for tokens that would weaken the trusted base; comment hits discarded.
+    Scope: everything the property's theorems import, plus all executable code (Model/, Driver/, Main)."""
     hits = []
-    for f in sorted(LEAN.rglob("*.lean")):
+    files = set(LEAN.rglob("*.lean"))
+    if module:
+        files = import_closure(module) | set((LEAN / "HedVerif" / "Model").glob("*.lean")) | \
+            set((LEAN / "HedVerif" / "Driver").glob("*.lean")) | set((LEAN / "HedVerif" / "Generated").glob("*.lean")) | \
+            {LEAN / "Main.lean"}
+    for f in sorted(files):
         if ".lake" in f.parts:
             continue
         text = f.read_text()
@@ -111,7 +130,11 @@ class Model:
     def batch(self, requests, timeout=1200):
         if not requests:
             return []
-        if not EXE.exists():
+        for _ in range(90):   # another builder may be re-linking the shared driver
+            if EXE.exists():
+                break
+            time.sleep(1)
+        else:
             raise RuntimeError("model driver not built")
         data = "\n".join(json.dumps(r, ensure_ascii=True) for r in requests) + "\n"
         p = subprocess.run([str(EXE)], input=data, capture_output=True, text=True, timeout=timeout)
@@ -288,7 +311,7 @@ def standard_obligations(ctx, theorems, extra_targets=()):
             ctx.obligation(t, False, "build failed")
         return False
     ctx.obligation(f"build:{module}", True)
-    hits = forbidden_scan()
+    hits = forbidden_scan(module)
     ctx.obligation("forbidden-token-scan", not hits, "\n".join(hits))
     res, out = audit(module, theorems)
     for t in theorems:
